@@ -16,6 +16,7 @@ pub mod prop_c06;
 pub mod prop_c07;
 pub mod prop_c08;
 pub mod prop_c08_scan;
+pub mod prop_c09;
 pub mod prop_c10;
 pub mod prop_c11;
 pub mod prop_c12;
@@ -40,6 +41,7 @@ pub fn registry() -> Vec<PropertyDef> {
         prop_c06::def(),
         prop_c07::def(),
         prop_c08::def(),
+        prop_c09::def(),
         prop_c10::def(),
         prop_c11::def(),
         prop_c12::def(),
